@@ -296,6 +296,78 @@ def check(src, rep):
             rep.violation("R6", f"{MOD}.ConnectionManager.close", "transport-not-closed", "close() does not close the current transport", file, close.node.lineno)
     if okc:
         rep.ok("R6", "close()", "sets the closing event first, then closes the current transport if there is one")
+    _loss_signal(rep, M, src)
+
+
+def _loss_signal(rep, M, src):
+    """R7: a loss is signalled to the manager -- the awaitable handed out by the protocol's `done` is one object for the protocol's whole life
+    (created with it, never re-bound), and connection_lost() completes exactly that object on every path"""
+    file = src.file(MOD)
+    B = M.classes.get((MOD, "SmartMeterBaseProtocol"))
+    if B is None or "done" not in B.methods or "connection_lost" not in B.methods:
+        raise Undecided("anchor vanished: SmartMeterBaseProtocol.done / connection_lost")
+    SELF0 = ("self0",)
+    try:
+        dps = Engine(M, fork_props=True).run(B.methods["done"])
+    except Exception as e:  # Unsupported
+        raise Undecided(f"SmartMeterBaseProtocol.done outside the analysed subset: {e}")
+    fields = set()
+    bad = 0
+    for p in dps:
+        r = strip_epoch(p.ret) if getattr(p, "ret", None) is not None else None
+        writes = [e for e in p.effects if e[0] == "write"]
+        if writes:
+            bad += 1
+            rep.violation("R7", f"{MOD}.SmartMeterBaseProtocol.done", "done-created-on-demand", "the `done` awaitable is (re)created when it is read: a loss that happens before the manager first reads it completes nothing, and the "
+                          "manager then waits forever on a connection that is already gone (no reconnect)", file, B.methods["done"].node.lineno, witness=f"writes {[e[2] for e in writes]}")
+            continue
+        if r is None or r[0] != "f0" or r[1] != SELF0:
+            raise Undecided(f"SmartMeterBaseProtocol.done does not return a field of the protocol ({show_sv(r) if r else None})")
+        fields.add(r[2])
+    if bad:
+        return
+    if len(fields) != 1:
+        raise Undecided(f"SmartMeterBaseProtocol.done returns different fields {sorted(fields)}")
+    F = fields.pop()
+    # the field is bound once, by a constructor
+    for ck, C in M.classes.items():
+        if ck[0] != MOD:
+            continue
+        for mname, fn in C.methods.items():
+            for n in ast.walk(fn.node):
+                tg = n.targets if isinstance(n, ast.Assign) else [n.target] if isinstance(n, (ast.AnnAssign, ast.AugAssign)) else []
+                for t in tg:
+                    if isinstance(t, ast.Attribute) and t.attr == F and isinstance(t.value, ast.Name) and t.value.id == "self" and mname != "__init__" and (isinstance(n, ast.Assign) or n.value is not None):
+                        bad += 1
+                        rep.violation("R7", f"{MOD}.{ck[1]}.{mname}", "done-rebound", f"the future behind `done` (self.{F}) is re-bound outside the constructor: the manager can be waiting on an object that is never completed",
+                                      file, n.lineno)
+    init = M.find_method((MOD, "SmartMeterBaseProtocol"), "__init__")
+    if init is None or not any(isinstance(n, (ast.Assign, ast.AnnAssign)) and any(isinstance(t, ast.Attribute) and t.attr == F for t in (n.targets if isinstance(n, ast.Assign) else [n.target]))
+                               and isinstance(n.value, ast.Call) for n in ast.walk(init.node)):
+        bad += 1
+        rep.violation("R7", f"{MOD}.SmartMeterBaseProtocol.__init__", "done-not-created", f"the constructor does not create the future behind `done` (self.{F})", file, (init or B).node.lineno)
+    try:
+        cps = Engine(M, fork_props=True).run(B.methods["connection_lost"])
+    except Exception as e:
+        raise Undecided(f"SmartMeterBaseProtocol.connection_lost outside the analysed subset: {e}")
+    n = 0
+    for p in cps:
+        n += 1
+        settled = [e for e in p.effects if e[0] == "mutate" and strip_epoch(e[1]) == ("f0", SELF0, F) and e[2] in ("set_result", "set_exception")]
+        if p.status == "raise":
+            if not settled:
+                bad += 1
+                rep.violation("R7", f"{MOD}.SmartMeterBaseProtocol.connection_lost", "loss-not-signalled", "connection_lost() can raise before completing the `done` future: the manager is never told about the loss", file,
+                              B.methods["connection_lost"].node.lineno, witness="; ".join(("" if pol else "not ") + show_sv(g)[:50] for g, pol, _ in p.guards))
+            continue
+        if len(settled) != 1:
+            bad += 1
+            rep.violation("R7", f"{MOD}.SmartMeterBaseProtocol.connection_lost", "loss-not-signalled", f"a path of connection_lost() completes the `done` future {len(settled)} times (exactly once is needed: "
+                          "otherwise the manager keeps waiting on a dead connection and never reconnects)", file, B.methods["connection_lost"].node.lineno,
+                          witness="; ".join(("" if pol else "not ") + show_sv(g)[:50] for g, pol, _ in p.guards))
+            break
+    if not bad:
+        rep.ok("R7", f"{n} connection_lost path(s)", f"`done` hands out self.{F}, bound once by the constructor; every path of connection_lost() completes it exactly once")
 
 
 def _waits_on_possibly_empty(fn):
